@@ -81,6 +81,7 @@ def compile_text(text, names, lo=LO, hi=HI, crosscheck=True, tag='src'):
         with cf.ThreadPoolExecutor(runner.NCPU) as ex:
             res = dict(ex.map(one, names))
         res['__warnings__'] = warn
+        os.makedirs(runner.BUILD, exist_ok=True)
         with open(cache, 'wb') as f:
             pickle.dump(res, f)
         return res
